@@ -75,6 +75,7 @@ type E7Spec struct {
 	LastOneWins   []FuncRuleSpec     `json:"last_one_wins"`
 	ReadOnly      []ReadOnlySpec     `json:"read_only_tables"`
 	PathPattern   []FuncRuleSpec     `json:"path_as_pattern"`
+	FreshRecord   []FreshRecordSpec  `json:"fresh_record"`
 }
 
 type FuncRuleSpec struct {
@@ -281,6 +282,9 @@ func runE7(p *Program, sp *Spec, c *Collector) {
 	}
 	for _, pp := range t.PathPattern {
 		runPathAsPattern(p, c, pp)
+	}
+	for _, fr := range t.FreshRecord {
+		runFreshRecord(p, c, fr)
 	}
 	for _, n := range t.NoExit {
 		runNoExit(p, sp, c, n)
